@@ -125,9 +125,9 @@ func (p *Perturber) pick(list []string, what string) string {
 
 func (p *Perturber) mutate(root *Node, m mapRef) {
 	t := p.T
-	ops := []string{"set", "set", "set", "dup", "del", "unknown", "rename", "retype", "nullify"}
+	ops := []string{"set", "set", "set", "dup", "del", "unknown", "rename", "retype", "nullify", "merge"}
 	if m.role == roleRoot {
-		ops = []string{"dup", "unknown", "retype", "rename", "nullify"}
+		ops = []string{"dup", "unknown", "retype", "rename", "nullify", "merge"}
 	}
 	if m.role == roleGroup {
 		ops = append(ops, "dupgroup", "anchor")
@@ -177,6 +177,32 @@ func (p *Perturber) mutate(root *Node, m mapRef) {
 		// change the type of a container value
 		n.Pairs[pi].Val = Raw(p.pick([]string{"{}", "[]", "[a, b]", "{a: b}", "x", "5", "null", "- - a", "[[a]]", "[{a: b}]", "[null]", "[5]", "{a: {b: c}}", "{a: [b]}", "{a: 5}", "{a: null}", "{5: a}", "{a: true}"}, "retype"))
 		p.note("%s.%s retype", m.role, keyClass(m, key))
+	case "merge":
+		// a merge key whose value is written in place: values YAML cannot merge, mappings that bring in
+		// fields of this level (valid, unknown, duplicated, wrongly typed), lists of mappings
+		vals := []string{"x", "5", "null", "[a]", "[[a]]", "[{a: b}, c]", "{}", "[]", "{bogus: 1}", "[{bogus: 1}]", "{a: b}", "[{a: b}, {c: d}]"}
+		switch m.role {
+		case roleRule:
+			vals = append(vals, "{expr: up}", "{for: 1m}", "{for: bogus}", "{labels: {a: b}}", "{labels: {\"a b\": [c]}}", "{annotations: {a: \"{{ nofunc }}\"}}",
+				"{record: other}", "{alert: Other}", "[{expr: up}, {for: 5m}]", "{expr: \"sum(\"}", "{keep_firing_for: -1m}")
+		case roleGroup:
+			vals = append(vals, "{interval: 1m}", "{interval: bogus}", "{limit: -1}", "{name: other}", "{rules: []}", "{query_offset: x}", "[{interval: 1m}, {limit: x}]")
+		case roleStrMap:
+			vals = append(vals, "{\"a b\": c}", "{a: [b]}", "{__name__: x}", "{a: \"{{ nofunc }}\"}", "{a: 5}")
+		case roleRoot:
+			vals = append(vals, "{groups: []}", "{groups: x}")
+		}
+		at := rapid.IntRange(0, len(n.Pairs)).Draw(t, p.lbl("mat"))
+		mp := Pair{Key: Raw("<<"), Val: Raw(p.pick(vals, "mval"))}
+		n.Pairs = append(n.Pairs[:at], append([]Pair{mp}, n.Pairs[at:]...)...)
+		if rapid.IntRange(0, 3).Draw(t, p.lbl("mdel")) == 0 && len(n.Pairs) > 1 {
+			// and drop one of the fields written in place (the merged mapping may supply it)
+			di := rapid.IntRange(0, len(n.Pairs)-1).Draw(t, p.lbl("mdeli"))
+			if di != at {
+				n.Pairs = append(n.Pairs[:di], n.Pairs[di+1:]...)
+			}
+		}
+		p.note("%s merge-inplace", m.role)
 	case "both":
 		n.Pairs = append(n.Pairs, Pair{Key: P(p.pick([]string{"alert", "record"}, "bothk")), Val: P("other_name")})
 		p.note("rule both")
